@@ -49,6 +49,9 @@ CLASSES = {'Reg': 'regs', 'RegEn': 'regs', 'RegRst': 'regs', 'RegEnRst': 'regs',
            'RoundRobinArbiter': 'arb', 'RoundRobinArbiterEn': 'arb'}
 # kind of every constructor parameter (fixed: a parameter named here is a Bits type, every other one an integer)
 TYPE_PARAMS = {'Type'}
+# smallest value of an integer parameter for which the index / slice / width checks are made (the arbiters cannot be built with
+# nreqs = 1: `in_[1:nreqs]` is an empty slice, PyMTL raises); every other integer parameter: >= 0; a width: >= 1
+PARAM_LOWER = {'nreqs': 2}
 
 # ----------------------------------------------------------------------------------------------- linear expressions
 
@@ -99,6 +102,7 @@ class Comp:
     s.conn_slices = {} # driven field -> [(lo, hi, source code)]
     s.blocks = []      # (name, kind, text of definitions)
     s.lower = {}       # lower bound of every parameter name (Lean name)
+    s.param_uses = []  # (integer parameter, width Lin of the signal it is assigned to)
 
   def lean_params(s): return ' '.join(ln for _, ln, _ in s.params)
   def binder(s): return f'({s.lean_params()} : Nat) ' if s.params else ''
@@ -162,7 +166,7 @@ class Translator:
       if pn in TYPE_PARAMS:
         ln = pn + '_nbits'; params.append((pn, ln, 'type')); env[pn] = ('type', Lin.var(ln)); lower[ln] = 1
       else:
-        params.append((pn, pn, 'int')); env[pn] = ('int', Lin.var(pn)); lower[pn] = 1 if pn == 'nreqs' else 0
+        params.append((pn, pn, 'int')); env[pn] = ('int', Lin.var(pn)); lower[pn] = PARAM_LOWER.get(pn, 0)
     c = Comp(clsname, params)
     c.lower = lower
     c.defaults = {}
@@ -236,6 +240,12 @@ class Translator:
       if v[0] != kind: fail(call, f'constructor argument {pn} is not of kind {kind}')
       s.need_nonneg(c, v[1] - Lin(sub.lower[ln]), call, f'constructor argument {pn} >= {sub.lower[ln]}')
       args.append(v[1])
+    byname = {ln: a for (_, ln, _), a in zip(sub.params, args)}
+    for pname, w in sub.param_uses:
+      a = byname[pname]
+      if not a.is_const(): fail(call, f'constructor argument {pname} is assigned to a signal and is not a constant')
+      for ln, e in byname.items(): w = w.subst(ln, e)
+      s.need_nonneg(c, w - Lin(max(a.c.bit_length(), 1)), call, f'{pname} = {a.c} fits the signal it is assigned to')
     c.insts[target] = (sub, args)
 
   # ------------------------------------------------------------------ signals
@@ -282,7 +292,7 @@ class Translator:
         e = e.subst(var, (b - Lin(1)) if upper else a)
       return e
     s.need_nonneg(c, extreme(lo, False), node, 'index >= 0')
-    s.need_nonneg(c, extreme(width - hi, True).__neg__().__neg__() if False else extreme((hi - Lin(0)), True).__neg__() + extreme(width, True) if False else (width - extreme(hi, True)), node, 'index / slice within the declared width')
+    s.need_nonneg(c, width - extreme(hi, True), node, 'index / slice within the declared width')
     s.need_nonneg(c, hi - lo - Lin(1), node, 'non-empty slice')
 
   # ------------------------------------------------------------------ structure: nets, instances, slice connections
@@ -388,9 +398,9 @@ class Translator:
       s.check_range(c, lo, hi, r[1], x, st['ranges'])
       if single:
         val = s.value(c, x.value, st, Lin(1), True)
-        return f'{{ {wr} with {f} := setBit {wr}.{f} {lo.lean()} {val} }}'
+        return f'{{ {wr} with {f} := setBit {wr}.{f} {lo.lean()} {s.atom(val)} }}'
       val = s.value(c, x.value, st, hi - lo, False)
-      return f'{{ {wr} with {f} := setSlice {wr}.{f} {lo.lean()} {hi.lean()} {val} }}'
+      return f'{{ {wr} with {f} := setSlice {wr}.{f} {lo.lean()} {hi.lean()} {s.atom(val)} }}'
     if isinstance(x, ast.If):
       cond = s.value(c, x.test, st, Lin(1), True)
       return f'(if {cond} then {s.seq(c, x.body, st)} else {s.seq(c, x.orelse, st)})'
@@ -438,6 +448,7 @@ class Translator:
       s.need_nonneg(c, width - Lin(max(k[1].bit_length(), 1)), node, f'constant {k[1]} fits')
       return str(k[1])
     if k[0] == 'p':
+      c.param_uses.append((code, width))
       return code           # an integer constructor parameter: that it fits is checked where the class is instantiated
     fail(node, 'a word value is expected')
 
@@ -487,13 +498,24 @@ class Translator:
       fail(node, 'comparison outside the subset')
     fail(node, 'expression outside the subset')
 
-  def atom(s, code): return code if re.fullmatch(r'[\w.]+|\(.*\)', code) else f'({code})'
+  def atom(s, code):
+    if re.fullmatch(r'[\w.]+', code): return code
+    if code.startswith('(') and code.endswith(')'):
+      depth = 0
+      for k, ch in enumerate(code):
+        depth += (ch == '(') - (ch == ')')
+        if depth == 0 and k < len(code) - 1: break
+      else: return code
+    return f'({code})'
 
   # ------------------------------------------------------------------ rendering
   def render(s, c):
     P = c.binder()
     L = [f'/-! ## `{c.cls}` ({FILES[CLASSES[c.cls]]})' + (f' — parameters: {", ".join(f"{pn} ({kind}) as `{ln}`" for pn, ln, kind in c.params)}' if c.params else '') + ' -/', '',
-         f'namespace {c.cls}', '', 'structure Sig where']
+         f'namespace {c.cls}', '',
+         '/-- index / slice / width checks of the translator hold for parameter values from these lower bounds on -/',
+         'def paramLower : List (String × Nat) := [' + ', '.join(f'("{ln}", {c.lower[ln]})' for _, ln, _ in c.params) + ']', '',
+         'structure Sig where']
     for f, w in c.sigs.items(): L.append(f'  {f} : {"Bool" if f in c.bool else "Nat"}')
     for f, (w, isb) in c.extra.items(): L.append(f'  {f} : {"Bool" if isb else "Nat"}')
     L.append('')
